@@ -1,9 +1,10 @@
 (* private extraction file of the slice `reader` (development only; see SLICE_GUIDE.md).
    At integration: coq/Extract.v gets  `From JLS Require Import ... RepairRaw RepairModel BitCopyModel ReaderModel.`  and the names
+     RepairRaw.rp_signal_validate
      ReaderModel.rdm_open ReaderModel.rdm_fsr_length ReaderModel.rdm_fsr ReaderModel.rdm_annotations
-     ReaderModel.rdm_user_data ReaderModel.rdm_utc ReaderModel.rdm_set_tr ReaderModel.rdm_flt ReaderModel.rdm_def
-     ReaderModel.rdm_sig RepairRaw.rp_signal_validate
-   (ocaml/drv_reader.ml uses these, the records rdm_st rdm_anno rdm_ud rdm_piece and the type rdm_open_res). *)
+     ReaderModel.rdm_user_data ReaderModel.rdm_utc ReaderModel.rdm_set_tr ReaderModel.rdm_flt ReaderModel.rdm_def ReaderModel.rdm_sig
+   (ocaml/drv_reader.ml uses these, the records rdm_st rdm_anno rdm_ud rdm_piece sigdef and the type rdm_open_res);
+   `drv_reader.ml` goes into ocaml/DRIVERS; no new C kind: harness/KINDS keeps jlsrun_k_prog.h. *)
 From Coq Require Import Extraction ExtrOcamlBasic NArith ZArith QArith Qreduction List.
 From JLS Require Import Generated CrcDefs Spec Format WmRaw WmCore WmTs WmFsr WriterModel RepairRaw RepairModel BitCopyModel ReaderModel.
 Extraction Language OCaml.
